@@ -48,7 +48,7 @@ pub fn assumptions() -> Vec<&'static str> {
         "the kernel (io_uring, epoll, socket and pipe semantics) is trusted",
         "drop / cancel points are the API-step boundaries of the lab, not arbitrary instructions",
         "kernel-internal completion order between several reads pending on one descriptor is not controlled: the data oracle is a partition predicate over the position-coded stream",
-        "liveness is bounded progress: an awaited event supplied by the lab must complete the operation within 60 polls of <=100 ms (300 for pool jobs)",
+        "liveness is bounded progress: an awaited event supplied by the lab must complete the operation within 30 polls of <=100 ms (300 for pool jobs)",
     ]
 }
 
@@ -1221,7 +1221,7 @@ impl Lab {
                 }
             }
             let only_jobs = pending.iter().all(|&i| self.ops[i].kind == Kind::Job);
-            if round >= 60 && !only_jobs {
+            if round >= 30 && !only_jobs {
                 break;
             }
             self.poll(Duration::from_millis(if round < 2 { 0 } else { 100 }))?;
